@@ -338,10 +338,6 @@ class ProgressWorld(object):
         self.completes = []
         self.progress = []
         pr = self.pr
-        # a reporter as the library itself uses it: with a progress and a completion message
-        # (their output goes to a sink)
-        pr.set_progress_message('working: {progress:.1f}%')
-        pr.set_complete_message('done')
 
         @evm.connect(sender=pr)
         def on_complete(sender, **kw):
@@ -350,6 +346,11 @@ class ProgressWorld(object):
         @evm.connect(sender=pr)
         def on_progress(sender, value, value_max, **kw):
             self.progress.append((value, value_max))
+
+        # a reporter as the library itself uses it: with a progress and a completion message (their
+        # output goes to a sink); the messages are set after the listeners above were connected
+        pr.set_progress_message('working: {progress:.1f}%')
+        pr.set_complete_message('done')
 
     def apply(self, op, ref):
         import contextlib
